@@ -355,6 +355,11 @@ func (r *runner) handler(w *gldap.ResponseWriter, req *gldap.Request) {
 	holdAfter := p != nil && p.hold && p.kind == "starttls" && r.scen.Cfg["tls"] == "starttls" && r.scen.Cfg["tls_hold_after"] == "1"
 	if p != nil && p.hold && !holdAfter {
 		<-p.rel
+		if r.scen.Cfg["async_release"] == "1" {
+			// the handler goes on by itself a little later: nothing the harness does orders its Write with what the
+			// connection goroutine does meanwhile (race-detector scenarios)
+			time.Sleep(40 * time.Millisecond)
+		}
 	}
 	if p != nil && p.panic {
 		r.emit(tEvent{Ev: "hpanic", C: c, Conn: req.ConnectionID(), Req: req.ID, I: i, K: kind})
@@ -382,9 +387,12 @@ func (r *runner) handler(w *gldap.ResponseWriter, req *gldap.Request) {
 		return
 	}
 	var resp gldap.Response
-	r.mu.Lock()
-	notReading := p != nil && r.clients[p.c] != nil && r.clients[p.c].isNoRead()
-	r.mu.Unlock()
+	notReading := false
+	if r.scen.Cfg["async_release"] != "1" { // (there the handler must not touch the harness's own locks before it writes)
+		r.mu.Lock()
+		notReading = p != nil && r.clients[p.c] != nil && r.clients[p.c].isNoRead()
+		r.mu.Unlock()
+	}
 	if notReading {
 		// large enough to fill the socket buffers: the Write blocks
 		resp = req.NewResponse(gldap.WithResponseCode(gldap.ResultSuccess), gldap.WithApplicationCode(respAppFor(kind)), gldap.WithDiagnosticMessage(strings.Repeat("x", 16<<20)))
@@ -1075,6 +1083,9 @@ func runScenario(sc *sScenario, out *hx.Out, seed int64, tlsSrv, tlsCli *tls.Con
 		}
 		exp = f
 		r.expect(exp)
+		if e.A == "release" && sc.Cfg["async_release"] == "1" {
+			continue // the released handler finishes on its own time
+		}
 		r.waitFor(exp)
 	}
 	// final settle: a short quiet period, then the end-of-scenario samples
